@@ -132,6 +132,17 @@ def gen_cases(ctx):
                     a = ["two\nlines", "plain"] if first_row_break else ["plain", "two\nlines"]
                     cases.append({"op": "file", "format": "csv", "suffix": suf, "encoding": enc, "sep": rng.choice([",", ";"]), "header": header,
                                   "frame": {"n": 2, "cols": [{"name": "a", "kind": "str", "vals": a}, {"name": "b", "kind": "int", "vals": [1, 2]}, {"name": "c", "kind": "float", "vals": [0.5, 1.5]}]}})
+    # frames in which EVERY column is constant (a table of defaults, a one-level extract): as many rows come back as went in
+    for fmt in ("npz", "pickle", "parquet", "csv", "json"):
+        for nrow in (2, 5):
+            cases.append({"op": "file", "format": fmt, "suffix": "", "encoding": "utf-8", "sep": ",", "header": True,
+                          "frame": {"n": nrow, "cols": [{"name": "a", "kind": "int", "vals": [7] * nrow}, {"name": "b", "kind": "str", "vals": ["k"] * nrow},
+                                                         {"name": "c", "kind": "float", "vals": [1.5] * nrow}]}})
+    # a list of dicts whose JSON text is larger than any writer block (2**20 characters), in every text encoding incl. those
+    # whose codec writes a byte order mark once per stream
+    for enc in ("utf-8", "utf-16", "latin-1"):
+        cases.append({"op": "file", "format": "lod_json", "suffix": "", "encoding": enc, "sep": ",", "header": True, "big_items": 30000,
+                      "dicts": [{"a": 1, "b": "x", "n": 2.5}, {"a": 2, "b": "y", "n": None}]})
     n = 260 if ctx.tier == "quick" else 4000
     for _ in range(n):
         cases.append(gen_case(rng, ctx.tier))
@@ -186,6 +197,15 @@ def expanded(case):
     return fr
 
 
+def lod_source(case):
+    """the items written: those of the case, or — for a `big_items` case — that many items built from them (a counter in every
+    string so that a repeated or dropped block shows)"""
+    if not case.get("big_items"):
+        return case["dicts"]
+    base = case["dicts"]
+    return [{k: (f"{v} #{j}" if isinstance(v, str) else v) for k, v in base[j % len(base)].items()} for j in range(case["big_items"])]
+
+
 def impl(case):
     import dataiter as di
     from harness import warm
@@ -200,7 +220,8 @@ def impl(case):
                "lod_pickle": ".pkl", "lod_json": ".json", "lod_csv": ".csv"}[fmt]
         path = os.path.join(d, "t" + ext + suf)
         if fmt.startswith("lod_"):
-            obj = di.ListOfDicts([dict(x) for x in case["dicts"]])
+            src_dicts = lod_source(case)
+            obj = di.ListOfDicts([dict(x) for x in src_dicts])
             try:
                 if fmt == "lod_pickle":
                     obj.write_pickle(path)
@@ -280,7 +301,7 @@ def judge(ctx, case, obs, mouts):
             sig = f"not-compressed:{'parquet' if fmt == 'parquet' else fmt}:{suf}" if fmt != "parquet" else "parquet:suffix:not-compressed"
             ctx.violation("oracle", sig, f"{fmt} file with suffix {suf} is not compressed (starts with {bytes(obs['head'])!r})", case, obs)
     if fmt.startswith("lod_"):
-        src = [dict(x) for x in case["dicts"]]
+        src = [dict(x) for x in lod_source(case)]
         back = obs["back"]
         if fmt == "lod_csv":
             keys = list(dict.fromkeys(k for x in src for k in x))
